@@ -317,6 +317,35 @@ func vC09NonRefreshing(t *testing.T, out *vEmitter) {
 			if err != nil || s == nil {
 				continue
 			}
+			// what the login made of the provider's (absent) timestamps, against the model of redeemCode's fallbacks:
+			// the form-encoded branch of the default Redeem stamps CreatedAt itself, the JSON branch leaves both unset
+			{
+				loginAt := time.Now().Unix()
+				pc := vNone
+				if enc == "form" {
+					pc = vSome(vI(loginAt))
+				}
+				sym := func(x *time.Time, base int64) vsx {
+					if x == nil {
+						return vNone
+					}
+					d := x.Unix() - base
+					if d >= -3 && d <= 3 {
+						d = 0
+					}
+					return vSome(vI(base + d))
+				}
+				created := vI(0)
+				if s.CreatedAt != nil {
+					d := s.CreatedAt.Unix() - loginAt
+					if d >= -3 && d <= 3 {
+						d = 0
+					}
+					created = vI(loginAt + d)
+				}
+				out.Case("lifetime/login-fallbacks", true, vL(created, sym(s.ExpiresOn, loginAt+int64(e.opts.Cookie.Expire/time.Second))),
+					vL("redeem_fallbacks", vI(loginAt), vI(int64(e.opts.Cookie.Expire/time.Second)), pc, vNone))
+			}
 			// cookie-expire + 1 min later, last re-stamped one refresh period + 1 min ago
 			elapsed := e.opts.Cookie.Expire + time.Minute
 			stamped := time.Now().Add(-e.opts.Cookie.Refresh - time.Minute)
@@ -326,7 +355,21 @@ func vC09NonRefreshing(t *testing.T, out *vEmitter) {
 				s.ExpiresOn = &x
 			}
 			vReseed(b, s)
+			nowS := time.Now().Unix()
 			r := b.get("/oauth2/auth")
+			{
+				expSX := vNone
+				if s.ExpiresOn != nil {
+					expSX = vSome(vI(s.ExpiresOn.Unix()))
+				}
+				impl := vY("refused")
+				if r.Status == 202 {
+					impl = vL(vY("honoured"), vBool(true))
+				}
+				out.Case("lifetime/aged-request", true, impl,
+					vL("lifetime_request", vI(int64(e.opts.Cookie.Refresh/time.Second)), vI(int64(e.opts.Cookie.Expire/time.Second)),
+						vI(s.CreatedAt.Unix()), expSX, vI(nowS), vBool(true)))
+			}
 			out.Obs("non-refreshing", true, vL(vBool(redis), vY(enc), vI(int64(r.Status)), vBool(s.ExpiresOn != nil)))
 			out.Stat("non_refreshing_provider_runs", 1)
 			if r.Status == 202 {
